@@ -31,6 +31,8 @@ pub trait TemplateRegistry: Sized {
         // register common filters
         tera.register_filter("escape_js", escape_js_filter);
         tera.register_filter("add_types_prefix", add_types_prefix_filter);
+        tera.register_filter("ts_key", ts_key_filter);
+        tera.register_filter("ts_member", ts_member_filter);
 
         // register registry specific templates
         Self::register_templates(&mut tera)?;
@@ -60,6 +62,66 @@ fn escape_js_filter(value: &Value, _args: &HashMap<String, Value>) -> tera::Resu
         Ok(Value::String(escaped))
     } else {
         Err("escape_js filter expects a string".into())
+    }
+}
+
+/// True when `name` can be written as a bare property name / after a dot
+fn is_plain_identifier(name: &str) -> bool {
+    let mut chars = name.chars();
+    match chars.next() {
+        Some(c) if c.is_ascii_alphabetic() || c == '_' || c == '$' => {}
+        _ => return false,
+    }
+    chars.all(|c| c.is_ascii_alphanumeric() || c == '_' || c == '$')
+}
+
+/// Double-quoted string literal with the characters escaped that would end or corrupt it
+fn quote_js_string(value: &str) -> String {
+    let mut out = String::with_capacity(value.len() + 2);
+    out.push('"');
+    for c in value.chars() {
+        match c {
+            '\\' => out.push_str("\\\\"),
+            '"' => out.push_str("\\\""),
+            '\n' => out.push_str("\\n"),
+            '\r' => out.push_str("\\r"),
+            '\t' => out.push_str("\\t"),
+            '\u{2028}' => out.push_str("\\u2028"),
+            '\u{2029}' => out.push_str("\\u2029"),
+            c if (c as u32) < 0x20 => out.push_str(&format!("\\u{:04x}", c as u32)),
+            c => out.push(c),
+        }
+    }
+    out.push('"');
+    out
+}
+
+/// Filter for property names: identifiers stay as they are, anything else (kebab-case renames,
+/// names with spaces, ...) is emitted as a quoted key
+/// Usage: {{ field.serializedName | ts_key }}
+fn ts_key_filter(value: &Value, _args: &HashMap<String, Value>) -> tera::Result<Value> {
+    if let Some(name) = value.as_str() {
+        if is_plain_identifier(name) {
+            Ok(Value::String(name.to_string()))
+        } else {
+            Ok(Value::String(quote_js_string(name)))
+        }
+    } else {
+        Err("ts_key filter expects a string".into())
+    }
+}
+
+/// Filter for member access: `.name` for identifiers, `["na-me"]` otherwise
+/// Usage: params{{ channel.serializedParameterName | ts_member }}
+fn ts_member_filter(value: &Value, _args: &HashMap<String, Value>) -> tera::Result<Value> {
+    if let Some(name) = value.as_str() {
+        if is_plain_identifier(name) {
+            Ok(Value::String(format!(".{}", name)))
+        } else {
+            Ok(Value::String(format!("[{}]", quote_js_string(name))))
+        }
+    } else {
+        Err("ts_member filter expects a string".into())
     }
 }
 
